@@ -211,8 +211,9 @@ def timeLoop (F : TFlags) (P : Params) (specs : List TSpec) (startup : Int) (lat
 wall clock `dt_now()`: the wall clock shows `r + Z.offReal r` (naive local time of a zone with DST), asyncio sleeps for real
 seconds.  Both loops sleep `next_time_adj - now` first and then re-check the wall clock:
 * legacy `trigger_watch` (l.1154–1158): `actual_now = dt_now(); if actual_now < time_next: timeout = time_next - actual_now; continue`
-* new `TimeTriggerDecorator._cycle` (l.132–138): `timeout = (time_next_adj - dt_now()).total_seconds(); if timeout <= 1e-6: break;
-  sleep(timeout)` – it compares with `time_next_adj`, not with `time_next` (finding C06-F5). -/
+* new `TimeTriggerDecorator._cycle` (l.132–139): `timeout = (time_next - dt_now()).total_seconds(); if timeout <= 1e-6: break;
+  sleep(timeout)` – since fix 0421163 it compares with `time_next` too; before, it compared with `time_next_adj`
+  (finding C06-F5, kept as `WFlags.newPreFix`). -/
 
 structure Zone where
   /-- what the wall clock adds to the real time `r` (µs) at that moment -/
@@ -222,12 +223,16 @@ def wallAt (Z : Zone) (r : Int) : Int := r + Z.offReal r
 
 /-- which instant the early-wake-up re-check compares the wall clock with -/
 structure WFlags where
-  /-- `time_next_adj` (new subsystem) instead of `time_next` (legacy) -/
+  /-- `time_next_adj` (new subsystem before fix 0421163) instead of `time_next` (legacy; new subsystem now) -/
   recheckAdj : Bool
 deriving DecidableEq, Repr
 
+/-- `trigger_watch` as it is -/
 def WFlags.legacy : WFlags := ⟨false⟩
-def WFlags.new : WFlags := ⟨true⟩
+/-- `TimeTriggerDecorator._cycle` as it is (since fix 0421163) -/
+def WFlags.new : WFlags := ⟨false⟩
+/-- `TimeTriggerDecorator._cycle` before fix 0421163 -/
+def WFlags.newPreFix : WFlags := ⟨true⟩
 
 /-- the re-check loop after the first sleep: real time at which the function is run -/
 def waitFire (W : WFlags) (Z : Zone) (next adj : Int) : Nat → Int → Int
